@@ -355,6 +355,9 @@ def unit_svd(shape_kind, mode, full, complex_):
             prove_eq(c, tag + ":full_k:U_diag(S)_V^H_reproduces_A", mat.matmul(mat.matmul(u, S), vh), Am)
         # S = sqrt of the selected eigenvalues of the Gram matrix; the selected end follows the mode
         c.check(tag + ":S_is_the_square_root_of_the_selected_eigenvalues", s.kind is not None and s.kind[0] == "sqrt")
+        sq = c.ghost.get("mat_sqrt_args", [])
+        c.check(tag + ":square_root_is_taken_of_eigenvalues_clamped_at_zero_first", len(sq) == 1 and sq[0][1],
+                detail="sqrt applied to %s" % (sq,))
         clamps = c.ghost.get("mat_clamps", [])
         c.check(tag + ":eigenvalues_are_clamped_at_zero_and_the_divisor_at_1e-12", [(mn, mx) for _, mn, mx in clamps] == [(0.0, None), (1e-12, None)])
         if not full:
